@@ -31,7 +31,7 @@ impl Budget {
     }
 }
 
-pub const SIZE_BOUNDARIES: [u64; 22] = [0, 1, 2, 3, 4, 5, 6, 17, 127, 128, 255, 256, 300, 16383, 16384, 16385, 32768, 49152, 65535, 65536, 65537, 70000];
+pub const SIZE_BOUNDARIES: [u64; 30] = [0, 1, 2, 3, 4, 5, 6, 7, 8, 9, 16, 17, 32, 63, 64, 65, 127, 128, 255, 256, 300, 16383, 16384, 16385, 32768, 49152, 65535, 65536, 65537, 70000];
 
 pub fn int_boundaries() -> Vec<i128> {
     let mut v: Vec<i128> = vec![0, 1, -1, 2, -2, 5, 7, 8, 100, -100];
